@@ -10,7 +10,7 @@ import (
 )
 
 func init() {
-	Explanations["C19"] = "Decides structural necessary conditions of 'pruning removes only old block bodies and never breaks the node': (R1) the store's prune step only rewrites the Blocks record of the given id as (header, nil body, nil supplement) — it calls the block writer with two nil constants and no other bucket writer — and is invoked only by the Manager's pruning method with ids taken from the best-chain index at heights strictly below its argument (the height variable is the method's parameter or a copy of it, is otherwise only ever decreased, and the looked-up height is that variable minus a positive constant), in a loop that stops at the first missing body; (R2) every use of a block body or supplement obtained from the store in Manager methods is guarded: supplement dereferences are nil-guarded (same check as C13.R3) and in the apply/update paths a failed lookup (ok == false) leads to an error return before the block is used; (R3) the minimum-reorg-index method stops its walk back from the tip at the first height whose body lookup (Store.Block, not Store.Header) fails; (R4) a reorg failing part-way — e.g. on a pruned body — is rolled back on every path (same check as C01.R3). (R5) the store's ancestor-timestamp lookup does not go through the body-requiring block getter, so it still answers for pruned ancestors. NOT decided: equality of states with an unpruned twin, decoder/encoder agreement for header-only records, the exact minimum reorg index."
+	Explanations["C19"] = "Decides structural necessary conditions of 'pruning removes only old block bodies and never breaks the node': (R1) the store's prune step only rewrites the Blocks record of the given id as (header, nil body, nil supplement) — it calls the block writer with two nil constants and no other bucket writer — and is invoked only by the Manager's pruning method with ids taken from the best-chain index at heights strictly below its argument (the height variable is the method's parameter or a copy of it, is otherwise only ever decreased, and the looked-up height is that variable minus a positive constant), in a loop that stops at the first missing body; (R2) every use of a block body or supplement obtained from the store in Manager methods is guarded: supplement dereferences are nil-guarded (same check as C13.R3) and in the apply/update paths a failed lookup (ok == false) leads to an error return before the block is used; (R3) the minimum-reorg-index method stops its walk back from the tip at the first height whose body lookup (Store.Block, not Store.Header) fails; (R4) a reorg failing part-way — e.g. on a pruned body — is rolled back on every path (same check as C01.R3). (R5) the store's ancestor-timestamp lookup does not go through the body-requiring block getter, so it still answers for pruned ancestors. (R2 also) a body stored straight into a container or field must keep the lookup's found flag. NOT decided: equality of states with an unpruned twin, decoder/encoder agreement for header-only records, the exact minimum reorg index."
 
 	register(&Rule{ID: "C19.R1", Prop: "C19", Floor: 2, Doc: "prune rewrites only the block record as header-only, for best-chain ids below the given height", Run: c19r1})
 	register(&Rule{ID: "C19.R3", Prop: "C19", Floor: 1, Doc: "the minimum reorg index walks back only while block bodies exist", Run: c19r3})
